@@ -19,7 +19,7 @@ func (al *ArrayLiteral) String() string {
 
 	elements := []string{}
 	for _, el := range al.Elements {
-		elements = append(elements, el.String())
+		elements = append(elements, nodeString(el))
 	}
 
 	out.WriteString("[")
